@@ -58,6 +58,18 @@ func verifyFunc(eng *Engine, fn *ssa.Function, con *Contract, opts SolveOpts) *F
 			break
 		}
 	}
+	if con != nil && con.Opts["check"] == "asserts" {
+		// partial check of a function whose postconditions are a trusted summary: only the call-site assertions
+		// (and the vacuity probes) are obligations
+		var keep []*Obl
+		for _, o := range vc.obls {
+			if o.Kind == "assert" || o.Kind == "vacuity" {
+				keep = append(keep, o)
+			}
+		}
+		vc.obls = keep
+		vc.assumed[shortFuncName(fn)+": only its call-site assertions are checked here (no safety, postcondition or frame obligations); its postconditions remain a trusted summary"] = true
+	}
 	res.VC = vc
 	solveVC(vc, vc.obls, opts)
 	res.Obls = vc.obls
